@@ -278,7 +278,7 @@ package implements
 
 // every problem goes through the common Reporter (suppression by code and position, C17); earlier reports are kept
 //@ func ReportProblems
-//@   props C17 C10
+//@   props C17 C10 C05 C07 C08
 //@   requires pass != nil && (ignoreSet != nil ==> isetInv(ignoreSet))
 //@   assigns pass.$reports
 //@   ensures len(pass.$reports) >= old(len(pass.$reports)) && (forall k int :: 0 <= k && k < old(len(pass.$reports)) ==> pass.$reports[k] == old(pass.$reports)[k])
